@@ -222,7 +222,11 @@ func (x *Exec) doUnOp(st *State, u *ssa.UnOp) Value {
 	case token.MUL: // load
 		p := x.deref(v)
 		x.nilCheck(st, u, "nil", v, p)
-		return x.load(st, p)
+		res := x.load(st, p)
+		if g, ok := u.X.(*ssa.Global); ok && len(res.L) == 1 && x.ck.nonnil[g.Pkg.Pkg.Path()+"."+g.Name()] {
+			st.assume(mkNot(mkEq(res.L[0], tZero)))
+		}
+		return res
 	case token.NOT:
 		return scalar(u.Type(), mkNot(v.one()))
 	case token.SUB:
